@@ -750,6 +750,15 @@ func (iqr *IQR) Sort(sortColumns []string, less func(*Record, *Record) bool, lim
 		if err != nil {
 			return err
 		}
+
+		if len(sortColumnValues[i]) != iqr.NumberOfRecords() {
+			// The column doesn't exist here (e.g., an earlier command dropped
+			// it). Sort it as all nulls instead of indexing past the end.
+			sortColumnValues[i] = make([]sutils.CValueEnclosure, iqr.NumberOfRecords())
+			for k := range sortColumnValues[i] {
+				sortColumnValues[i][k] = sutils.CValueEnclosure{Dtype: sutils.SS_DT_BACKFILL, CVal: nil}
+			}
+		}
 	}
 
 	records := make([]*Record, iqr.NumberOfRecords())
